@@ -161,6 +161,10 @@ def run(rep: core.Report):
     from rules import shared_bandaxis
 
     shared_bandaxis.run(rep, "R10k", [("phonopy/phonon/thermal_properties.py", "ThermalPropertiesBase._calculate_thermal_property", {"func": 1})])
+    from rules import shared_readonly, shared_freshwrite
+
+    shared_readonly.run(rep, "R10m", ["phonopy/phonon/thermal_properties.py"], 3)
+    shared_freshwrite.run(rep, "R10l", ["phonopy/phonon/thermal_properties.py"], 0)
 
 
 # ---------------------------------------------------------------------------
